@@ -122,7 +122,17 @@ def r1_validation_dominates_use(ctx):
     ctx.ob("C14.R1", f"{IMP}::cached code is executed only after validation", IMP, ex.lineno, ok, "" if ok else "compile_bytecode can run on unvalidated cache data")
     vcalls = [c for c in P.calls(val_m) if P.un(c.func) == "_get_basilisp_bytecode"]
     for c in vcalls:
-        args = [P.un(a) for a in c.args]
+        def _through_temps(a):
+            """an argument, with an explaining temporary replaced by what it was assigned from"""
+            for _ in range(3):
+                if not isinstance(a, ast.Name):
+                    break
+                src = [x.value for x in ast.walk(val_m) if isinstance(x, ast.Assign) and any(isinstance(t, ast.Name) and t.id == a.id for t in x.targets)]
+                if len(src) != 1:
+                    break
+                a = src[0]
+            return a
+        args = [P.un(_through_temps(a)) for a in c.args]
         # (where the mapping comes from is decided below: self.path_stats(<source filename>))
         ok = len(args) == 4 and args[1].endswith("['mtime']") and args[2].endswith("['size']") and args[1][:-len("['mtime']")] == args[2][:-len("['size']")]
         ctx.ob("C14.R1", f"{IMP}::validation is given (mtime, size) of the source", IMP, c.lineno, ok, "" if ok else f"`{P.un(c)}`: validation is not given (mtime, size) of the source in that order")
@@ -244,24 +254,56 @@ def r2_layout_agreement(ctx):
     w_order, r_order = P.un(wcalls[0].args[1]), P.un(rcalls[0].args[1])
     ctx.ob("C14.R2", f"{IMP}::_w_long/_r_long::byte order {w_order} / {r_order}", IMP, wl.lineno, w_order == r_order, "" if w_order == r_order else "writer and reader disagree on byte order")
     wparams = [a.arg for a in w.args.args]
-    # writer layout
-    layout = []  # (semantic, width or None)
+    # writer layout: the fields in the order they are put into the buffer -- by bytearray(...) and
+    # .extend(...) calls, or by a concatenation (possibly through temporaries)
+    layout = []  # (semantic, start, end or None)
     off = 0
-    for s in w.body:
-        for c in P.calls(s):
-            f = P.un(c.func)
-            if f == "bytearray" and c.args and P.un(c.args[0]) == "MAGIC_NUMBER":
-                layout.append(("magic", off, off + mlen)); off += mlen
-            elif f.endswith(".extend") and c.args:
-                a = c.args[0]
-                if isinstance(a, ast.Call) and P.un(a.func) == "_w_long":
-                    layout.append((P.un(a.args[0]), off, off + width)); off += width
-                elif isinstance(a, ast.Call) and P.un(a.func) == "marshal.dumps":
-                    layout.append(("payload", off, None))
-                elif P.un(a) == "MAGIC_NUMBER":
-                    layout.append(("magic", off, off + mlen)); off += mlen
-                else:
-                    raise AnalysisError(f"unrecognised header field written: {P.un(a)}")
+
+    def _int(e):
+        """An integer bound: a literal, or a module-level constant bound to one."""
+        if e is None:
+            return None
+        if isinstance(e, ast.Constant) and isinstance(e.value, int):
+            return e.value
+        if isinstance(e, ast.Name):
+            v = P.module_assign(tree, e.id)
+            if isinstance(v, ast.Constant) and isinstance(v.value, int):
+                return v.value
+        raise AnalysisError(f"slice bound `{P.un(e)}` is neither a literal nor a module-level integer constant")
+
+    def field(a):
+        nonlocal off
+        if isinstance(a, ast.Call) and P.un(a.func) == "_w_long":
+            layout.append((P.un(a.args[0]), off, off + width)); off += width
+        elif isinstance(a, ast.Call) and P.un(a.func) == "marshal.dumps":
+            layout.append(("payload", off, None))
+        elif P.un(a) == "MAGIC_NUMBER":
+            layout.append(("magic", off, off + mlen)); off += mlen
+        elif isinstance(a, ast.Call) and P.un(a.func) in ("bytes", "bytearray") and len(a.args) == 1:
+            field(a.args[0])
+        elif isinstance(a, ast.BinOp) and isinstance(a.op, ast.Add):
+            field(a.left); field(a.right)
+        elif isinstance(a, ast.Name):
+            src = [x.value for x in ast.walk(w) if isinstance(x, ast.Assign) and any(isinstance(t, ast.Name) and t.id == a.id for t in x.targets)]
+            if len(src) != 1:
+                raise AnalysisError(f"unrecognised header field written: {P.un(a)}")
+            field(src[0])
+        else:
+            raise AnalysisError(f"unrecognised header field written: {P.un(a)}")
+    ext = [c for st in w.body for c in P.calls(st) if P.un(c.func).endswith(".extend") and c.args]
+    if ext:
+        for st in w.body:
+            for c in P.calls(st):
+                f = P.un(c.func)
+                if f == "bytearray" and c.args and not any(P.contains(x, c) for x in ext):
+                    field(c.args[0])
+                elif f.endswith(".extend") and c.args:
+                    field(c.args[0])
+    else:
+        rets_w = [x.value for x in ast.walk(w) if isinstance(x, ast.Return) and x.value is not None]
+        if len(rets_w) != 1:
+            raise AnalysisError("_basilisp_bytecode: the buffer written is neither built with extend() nor one returned concatenation")
+        field(rets_w[0])
     ctx.note("C14.R2 writer layout: " + ", ".join(f"{n}[{a}:{b if b is not None else ''}]" for n, a, b in layout))
     # reader slices
     rparams = [a.arg for a in r.args.args]
@@ -270,14 +312,20 @@ def r2_layout_agreement(ctx):
     for a in P.walk_local(r):
         if isinstance(a, ast.Assign) and isinstance(a.value, ast.Subscript) and P.un(a.value.value) == data_p and isinstance(a.value.slice, ast.Slice):
             sl = a.value.slice
-            lo = int(sl.lower.value) if sl.lower is not None else 0
-            hi = int(sl.upper.value) if sl.upper is not None else None
+            lo = _int(sl.lower) if sl.lower is not None else 0
+            hi = _int(sl.upper) if sl.upper is not None else None
             slices[P.un(a.targets[0])] = (lo, hi, a.lineno)
-    # the payload: the open-ended slice of the data handed to the decoder (directly or through a buffer object)
+    # the payload: the open-ended slice of the data handed to the decoder (directly, through a
+    # temporary, or through a buffer object)
     for sub in P.walk_local(r):
-        if isinstance(sub, ast.Subscript) and P.un(sub.value) == data_p and isinstance(sub.slice, ast.Slice) and sub.slice.upper is None and isinstance(P.parent(sub), ast.Call):
-            sl = sub.slice
-            slices["<payload>"] = (int(sl.lower.value) if isinstance(sl.lower, ast.Constant) else 0, None, sub.lineno)
+        if isinstance(sub, ast.Subscript) and P.un(sub.value) == data_p and isinstance(sub.slice, ast.Slice) and sub.slice.upper is None:
+            par = P.parent(sub)
+            via_tmp = isinstance(par, ast.Assign) and any(isinstance(c, ast.Call) and P.un(c.func) in ("marshal.loads", "marshal.load") and any(P.un(t) in P.names_read(c) for t in par.targets) for c in ast.walk(r))
+            if isinstance(par, ast.Call) or via_tmp:
+                sl = sub.slice
+                if via_tmp:
+                    slices.pop(P.un(par.targets[0]), None)
+                slices["<payload>"] = (_int(sl.lower) if sl.lower is not None else 0, None, sub.lineno)
     # which reader variable is compared with which semantic parameter
     sem = {}
     for t in ast.walk(r):
@@ -354,6 +402,15 @@ def r3_invalid_cache_reaches_fallback(ctx):
         return False
 
     tries = [t for t in ast.walk(em) if isinstance(t, ast.Try) and reaches(t.body, ("_get_basilisp_bytecode",))]
+    if not tries:
+        # the cache-or-source decision may live in a method exec_module calls: the try is looked for
+        # in every method exec_module reaches
+        for name, mm in meths.items():
+            if mm is not em and reaches(em.body, (name,)):
+                tries += [t for t in ast.walk(mm) if isinstance(t, ast.Try) and reaches(t.body, ("_get_basilisp_bytecode",))]
+                if tries:
+                    em = mm
+                    break
     if not tries:
         raise AnalysisError("exec_module no longer reads the cache inside a try")
     t = tries[0]
